@@ -24,9 +24,18 @@ class VirtualClock(object):
 
     def __init__(self, start=1000000.0):
         self.t = float(start)
+        self.t0 = float(start)
 
     def time(self):
         return self.t
+
+    # a maintainer may legitimately switch the library to another clock function of the `time` module: all of them are virtual here.
+    # As in reality, the monotonic clocks have another origin than the epoch clock (mixing the two must not go unnoticed).
+    def monotonic(self):
+        return self.t - self.t0 + 4321.0
+
+    def perf_counter(self):
+        return self.t - self.t0 + 87.5
 
     def advance(self, dt):
         if dt > 0:
@@ -44,6 +53,12 @@ class _ClockProxy(object):
 
     def time(self):
         return self.target.time()
+
+    def monotonic(self):
+        return self.target.monotonic()
+
+    def perf_counter(self):
+        return self.target.perf_counter()
 
     def sleep(self, dt):
         self.target.sleep(dt)
